@@ -56,9 +56,18 @@ def dropSign : Str → Str
   | '-' :: r => r
   | r => r
 
+/-- The whitespace `int()` / `float()` skip around an ASCII `str` (C `Py_ISSPACE`: TAB..CR and the
+    space).  Unlike `str.strip()` they do not skip the separators U+001C..U+001F:
+    `"1\x1f".strip() == "1"`, but `int("1\x1f")` and `float("1\x1f")` raise `ValueError`. -/
+def isCSpace (c : Char) : Bool :=
+  let n := c.toNat
+  (9 ≤ n && n ≤ 13) || n == 32
+
+def stripC (s : Str) : Str := ((s.dropWhile isCSpace).reverse.dropWhile isCSpace).reverse
+
 /-- `int(s)` on a `str`: surrounding whitespace, one optional sign, decimal digits. -/
 def pyIntParse (s : Str) : Option Int :=
-  let t := strip s
+  let t := stripC s
   let body := dropSign t
   if isDigitStr body then
     some (match t with
@@ -75,7 +84,7 @@ def takeDigits (s : Str) : Str × Str := (s.takeWhile Char.isDigit, s.dropWhile 
 /-- `float(s)` on a `str`: does it parse, and to which kind of float.
     (Decimal exponents are assumed small enough not to overflow to `inf`.) -/
 def pyFloatParse (s : Str) : FParse :=
-  let t := lower (dropSign (strip s))
+  let t := lower (dropSign (stripC s))
   if t == ['i', 'n', 'f'] || t == ['i', 'n', 'f', 'i', 'n', 'i', 't', 'y'] then .inf
   else if t == ['n', 'a', 'n'] then .nan
   else
